@@ -190,6 +190,20 @@ def place_raises(rng: random.Random, prog: dict, n: int) -> None:
                             {'op': 'raise', 'marker': marker})
 
 
+FOREIGN_MSG = 'Can only await on a BQSKit RuntimeFuture'
+
+
+def place_foreign_await(rng: random.Random, prog: dict) -> None:
+    """One task awaits something that is not a runtime future (a bare
+    yield, as `await asyncio.sleep(0)` does): the runtime must fail that
+    compilation with its own message, like any other task error."""
+    nodes = [x for x, p, f in walk(prog) if x['kind'] == 'async']
+    if nodes:
+        x = rng.choice(nodes)
+        x['ops'].insert(rng.randrange(len(x['ops']) + 1),
+                        {'op': 'await_foreign', 'marker': FOREIGN_MSG})
+
+
 def place_busy(rng: random.Random, prog: dict, n: int) -> None:
     """Mark up to n nodes as long-running steps (simulated seconds)."""
     nodes = [x for x, p, f in walk(prog)]
@@ -260,7 +274,7 @@ class Ref:
         raised_at = None
         for i, op in enumerate(node['ops']):
             k = op['op']
-            if k == 'raise':
+            if k in ('raise', 'await_foreign'):
                 raised_at = i
                 break
             if k == 'await_cancelled':
